@@ -1,6 +1,8 @@
 import RV.C09.LitLemmas
 import RV.C09.DurLemmas
 import RV.C09.DateLemmas
+import RV.C09.EqLemmas
+import RV.C09.FloatLemmas
 /-
   C09 — "Literal ↔ Python value mapping is faithful and normalisation is idempotent":
   property statements (each first as `def Statement_… : Prop` at full strength) and theorems.
@@ -174,6 +176,27 @@ theorem denotes_cases :
   ⟨fun _ _ _ => denotes_mkLex_false, fun _ _ _ => denotes_mkLex_true, fun _ _ => denotes_mkValue,
     denotes_mkFromLit_some, fun _ => denotes_mkFromLit_none⟩
 
+/-- … and also every *normalised* literal of xsd:date and of the three duration datatypes (what `duration_isoformat` /
+    `date.isoformat()` write is read back by `parse_xsd_duration` / `parse_xsd_date` as the very same value), base64Binary
+    (through `ExactBack`), `Literal(date)`, `Literal(timedelta)` and `Literal(Duration)` with years, months not both zero:
+    term-equal literals of these kinds are `eq` -/
+theorem denotes_cases_dates_durations :
+    (∀ (d : Dt) s l, (d.conv = .date ∨ d.conv = .duration) → mkLex (some d) s true = some l → Denotes l) ∧
+    (∀ y m d l, validYMD y m d = true → mkValue (.date y m d) none = some l → Denotes l) ∧
+    (∀ us l, tdInRange us = true → mkValue (.timedelta us) none = some l → Denotes l) ∧
+    (∀ y m us l, 0 ≤ m ∧ m < 12 → tdInRange us = true → ¬ (y = 0 ∧ m = 0) →
+      mkValue (.duration y m us) none = some l → Denotes l) ∧
+    ExactBack (some .base64Binary) = true :=
+  ⟨fun _ _ _ hd h => denotes_mkLex_true_date_dur hd h,
+    fun _ _ _ _ hv h => denotes_mkValue_date hv h,
+    fun us _ hr h => denotes_mkValue_dur (y := 0) (m := 0) (isDur := false) ⟨by decide, by decide⟩ hr (by intro e; cases e) h,
+    fun y m us _ hm hr hne h => denotes_mkValue_dur (isDur := true) hm hr
+      (by intro _; by_cases hy : y = 0
+          · have : m ≠ 0 := fun e => hne ⟨hy, e⟩
+            simp [dHasYM, hy, this]
+          · simp [dHasYM, hy]) h,
+    rfl⟩
+
 /-- `lit.eq(v)` for a plain Python object `v` of a kind `eq` documents for the literal's datatype
     (`eqPyDomain`: str ↔ plain / xsd:string, bool ↔ xsd:boolean, int / Decimal ↔ the numeric types,
     date / time / datetime ↔ xsd:date / time / dateTime, timedelta / Duration ↔ all three duration datatypes)
@@ -344,6 +367,94 @@ theorem time_roundtrip_witness : ¬ Statement_time_roundtrip := by
   revert hv
   decide
 
+/-! ## 7. the binary datatypes: xsd:hexBinary and xsd:base64Binary codecs -/
+
+/-- `hexlify`/`_unhexlify` and `b64encode`/`b64decode` (the loop of `binascii.a2b_base64`, non-strict): what the
+    encoder writes is in the XSD lexical space, denotes the bytes encoded and is decoded to them again; and every
+    form of the XSD lexical space (RFC 4648 alphabet and padding, for base64Binary a single space allowed after any
+    character but the last) is decoded to the octets XSD assigns to it -/
+def Statement_binary_codecs : Prop :=
+  (∀ b : List Nat, (∀ x ∈ b, x < 256) →
+    unhexlify (hexlify b) = some b ∧ Spec.hexLex (hexlify b) = true ∧
+    b64decode (b64encode b) = some b ∧ Spec.b64Lex (b64encode b) = true ∧ Spec.b64ValOf (b64encode b) = b) ∧
+  (∀ s, Spec.hexLex s = true → unhexlify s = some (Spec.hexVal s)) ∧
+  (∀ s, Spec.b64Lex s = true → b64decode s = some (Spec.b64ValOf s)) ∧
+  (∀ s b, (unhexlify s = some b ∨ b64decode s = some b) → ∀ x ∈ b, x < 256)
+
+theorem binary_codecs : Statement_binary_codecs :=
+  ⟨fun _ h => ⟨unhexlify_hexlify h, hexLex_hexlify h, b64decode_b64encode h, (b64Lex_b64encode h).1, (b64Lex_b64encode h).2⟩,
+    fun _ h => unhexlify_xsd h, fun _ h => b64decode_xsd h,
+    fun _ _ h => h.elim unhexlify_lt b64decode_lt⟩
+
+/-! ## 8. xsd:double / xsd:float (model: `FloatModel.lean`, exact integer / rational arithmetic, no `Float`) -/
+
+/-- both floating-point datatypes are keys of `XSDToPython` mapped to `float`, and the `float` rule writes xsd:double
+    through a lexicaliser (regenerated tables) -/
+theorem float_converter_table :
+    lookupStr "double" Tables.xsdToPython = some "float" ∧ lookupStr "float" Tables.xsdToPython = some "float" ∧
+    ("float", "double", "fn") ∈ Tables.genericRules ∧ "double" ∈ Tables.numericTypes ∧ "float" ∈ Tables.numericTypes := by
+  decide
+
+/-- `Literal(float)`: whatever `_float_to_xsd` writes — `NaN`, `INF`, `-INF` (fix C09-F1), or `repr` of a finite double in
+    any of the layouts of `format_float_short` — is in the lexical space of xsd:double -/
+def Statement_float_printer_valid : Prop :=
+  ∀ v s, floatToXsd v = some s → Spec.doubleLex s = true
+
+theorem float_printer_valid : Statement_float_printer_valid := fun _ _ h => doubleLex_floatToXsd h
+
+/-- the special values and the signed zeros: XSD's spellings are read as the right value and written back in XSD's
+    spelling (never Python's `inf` / `nan`), in both directions; overflow goes to INF and underflow to a signed zero as
+    XSD's `floatingPointRound` prescribes -/
+theorem float_specials :
+    pyFloat "INF".toList = some (.inf false) ∧ pyFloat "+INF".toList = some (.inf false) ∧
+    pyFloat "-INF".toList = some (.inf true) ∧ pyFloat "NaN".toList = some .nan ∧
+    floatToXsd .nan = some "NaN".toList ∧ floatToXsd (.inf false) = some "INF".toList ∧
+    floatToXsd (.inf true) = some "-INF".toList ∧
+    pyFloat "-0".toList = some (.fin true 0 0) ∧ pyFloat "0".toList = some (.fin false 0 0) ∧
+    floatToXsd (.fin true 0 0) = some "-0.0".toList ∧ floatToXsd (.fin false 0 0) = some "0.0".toList ∧
+    pyFloat "-0.0".toList = some (.fin true 0 0) ∧ FVal.pyEq (.fin true 0 0) (.fin false 0 0) = true ∧
+    FVal.pyEq .nan .nan = false ∧
+    pyFloat "1e400".toList = some (.inf false) ∧ pyFloat "-1e-400".toList = some (.fin true 0 0) ∧
+    Spec.doubleLex "inf".toList = false ∧ Spec.doubleLex "nan".toList = false ∧ Spec.doubleLex "1e".toList = false ∧
+    Spec.doubleLex "-.5E-3".toList = true := by
+  decide +kernel
+
+/-- a zero keeps its sign and every double whose digits the search finds is written with them:
+    the defining property of `repr` — the digits read back as the same double — holds by construction of the search
+    (`readsBack`), for the decimal `D · 10^s` the digits denote -/
+def Statement_float_digits_read_back : Prop :=
+  ∀ neg m e ds decpt, m ≠ 0 → shortest neg m e = some (ds, decpt) →
+    ∃ D s, roundDec neg D s = .fin neg m e ∧ D ≠ 0 ∧ ds = rstrip0 (digits D) ∧ decpt = s + (ndigits D : Int) ∧
+      ds ≠ [] ∧ allDigits ds = true
+
+theorem float_digits_read_back : Statement_float_digits_read_back := by
+  intro neg m e ds decpt hm h
+  obtain ⟨D, s, hrb, h2, h3⟩ := shortestFrom_spec _ _ _ _ _ _ _ _ _ h
+  have hrb' : roundDec neg D s = .fin neg m e := by simpa [readsBack] using hrb
+  have hD : D ≠ 0 := by
+    intro e0
+    subst e0
+    rw [roundDec_zero] at hrb'
+    injection hrb' with _ h2 _
+    exact hm h2.symm
+  exact ⟨D, s, hrb', hD, h2, h3, by rw [h2]; exact rstrip0_ne_nil (by rw [num_digits]; exact hD),
+    by rw [h2]; exact allDigits_rstrip0 (allDigits_digits D)⟩
+
+/-- `Literal(float)` → lexical form → `float(str)` (the converter of xsd:double and xsd:float): the form is in the XSD lexical
+    space and reads back as the very same double — every finite double in every layout `repr` uses (fixed, exponent,
+    `.0` appended), both zeros, ±INF; NaN reads back as NaN.  The only thing not proved is that the 17-digit search
+    always finds digits (`floatToXsd v = some s` is a hypothesis; the driver would answer `raise`, never observed). -/
+def Statement_float_roundtrip : Prop :=
+  ∀ v s, v.canonical → floatToXsd v = some s → Spec.doubleLex s = true ∧ pyFloat s = some v
+
+theorem float_roundtrip : Statement_float_roundtrip := by
+  intro v s hc h
+  refine ⟨doubleLex_floatToXsd h, ?_⟩
+  cases v with
+  | nan => simp only [floatToXsd, Option.some.injEq] at h; subst h; decide +kernel
+  | inf neg => cases neg <;> (simp only [floatToXsd, Option.some.injEq] at h; subst h; decide +kernel)
+  | fin neg m e => exact pyFloat_floatToXsd hc h
+
 /-! ## Non-vacuity: the hypotheses are met by concrete, non-trivial instances -/
 
 example : XsdTz (some (-50400000000)) ∧ ¬ XsdTz (some 1000000) ∧ TzOk (some 86340000000) := by
@@ -355,6 +466,15 @@ example : durationIso (-2) 10 (-273906700000) true = some "-P1Y2M3DT4H5M6.7S".to
     tdInRange (-273906700000) = true := by decide
 
 
+example : Spec.validLex .base64Binary "YW Jj ZA==".toList = true ∧ Covered .base64Binary = true ∧
+    b64decode "YW Jj ZA==".toList = some [97, 98, 99, 100] ∧ Spec.validLex .base64Binary "YWJj ".toList = false ∧
+    b64decode "YQ=".toList = none ∧ b64decode "YQ=a=".toList = some [97, 6] ∧ b64decode "YQ=YQ==".toList = some [97, 6, 16] ∧ b64encode [97, 98, 99, 100] = "YWJjZA==".toList := by
+  decide +kernel
+example : floatToXsd (.fin false 7205759403792794 (-56)) = some "0.1".toList ∧
+    pyFloat "0.1".toList = some (.fin false 7205759403792794 (-56)) ∧
+    floatToXsd (.fin true 5000000000000000 1) = some "-1e+16".toList ∧
+    floatToXsd (.fin false 1 (-1074)) = some "5e-324".toList ∧ pyFloat "5e-324".toList = some (.fin false 1 (-1074)) := by
+  decide +kernel
 example : Spec.validLex .unsignedByte "+0255".toList = true ∧ Covered .unsignedByte = true := by decide
 example : Spec.validLex .decimal "-.50".toList = true ∧ Covered .decimal = true := by decide
 example : ∃ l, mkLex (some .integer) ['-', '0'] true = some l ∧ l.lex = ['0'] ∧ Built l :=
@@ -362,6 +482,9 @@ example : ∃ l, mkLex (some .integer) ['-', '0'] true = some l ∧ l.lex = ['0'
 example : ∃ l n1, Built l ∧ l.normalize = some n1 ∧ n1.lex ≠ l.lex :=
   ⟨⟨['0', 'F'], some .hexBinary, some (.bytes [15]), some false⟩, ⟨['0', 'f'], some .hexBinary, some (.bytes [15]), some false⟩,
     Built.lex (dt := some .hexBinary) (s := ['0', 'F']) (nz := false) (by decide), by decide, by decide⟩
+example : mkLex (some .duration) "P14M".toList true = some ⟨"P1Y2M".toList, some .duration, some (.duration 1 2 0), some false⟩ ∧
+    mkLex (some .date) "2024-02-29".toList true = some ⟨"2024-02-29".toList, some .date, some (.date 2024 2 29), some false⟩ := by
+  decide +kernel
 example : ∃ a b, Denotes a ∧ Denotes b ∧ a.termEq b = true ∧ a.lex = ['1', '2'] :=
   ⟨⟨['1', '2'], some .integer, some (.int 12), some false⟩, ⟨['1', '2'], some .integer, some (.int 12), none⟩,
     denotes_mkLex_true (dt := some .integer) (s := ['+', '0', '1', '2']) rfl (by decide),
